@@ -1,3 +1,4 @@
+import Proofs.Tie.Dec
 import Proofs.RejectConnect
 import Proofs.RejectSections
 import Proofs.FrameRead
